@@ -1,7 +1,7 @@
 """C20 — mirroring never affects the primary path.
 
 P: coq/Mirror/Props.v (c20_noninterference[_env|_world], c20_same_as_without_mirrors, c20_client_path_independent,
-   c20_valid_cfg_attaches_all,
+   c20_mirrors_independent[_send], c20_valid_cfg_attaches_all,
    c20_never_blocks, c20_send_always_completes, c20_mirror_sees_subsequence,
    c20_mirror_only_own_server, c20_attachment, c20_no_partial[_deliver], c20_env_only_removes,
    c20_queue_bounded) over coq/Mirror/Model.v; the channel capacity and the shape facts the
@@ -519,11 +519,12 @@ def model_expr(cfg, plan):
 PREAMBLE = "From PV Require Import Gen.MirrorConsts Mirror.Model.\nFrom Coq Require Import List NArith. Import ListNotations."
 
 
-def plan_for(cfg, res_m, mode, capacity):
+def plan_for(cfg, res_m, mode, capacity, stalled=None):
     """Build the model run that corresponds to a deterministic wire run: connections in the order they
     were opened, one Send per whole buffer the real server received (global order), and the mirror
     schedule: 'healthy' = connected at once, every buffer delivered right away; 'outage' = nothing
-    delivered until the end, then reconnect + deliver everything queued."""
+    delivered until the end, then reconnect + deliver everything queued; 'stall' = like healthy, except that the mirror
+    at configuration position `stalled` never connects and never takes anything from its channel."""
     name, servers, mirrors, pool_size = cfg[:4]
     opens, sends = [], []
     cid_of = {}
@@ -555,16 +556,22 @@ def plan_for(cfg, res_m, mode, capacity):
     for k, (b, c) in enumerate(opens):
         idx = [bb for bb, _ in servers].index(b)
         nm[k] = len([1 for mb, t in mirrors if t == idx])
-    if mode == "healthy":
+    pos_of = {}
+    for k, (b, c) in enumerate(opens):
+        idx = [bb for bb, _ in servers].index(b)
+        pos_of[k] = [p_ for p_, (mb, t) in enumerate(mirrors) if t == idx]
+    if mode in ("healthy", "stall"):
         for k in nm:
             for j in range(nm[k]):
-                plan.append(("env", k, j, "Reconnect"))
+                if not (mode == "stall" and pos_of[k][j] == stalled):
+                    plan.append(("env", k, j, "Reconnect"))
     for _, key, i in firstseq:
         k = cid_of[key]
         plan.append(("send", k, i))
-        if mode == "healthy":
+        if mode in ("healthy", "stall"):
             for j in range(nm[k]):
-                plan.append(("env", k, j, "Deliver"))
+                if not (mode == "stall" and pos_of[k][j] == stalled):
+                    plan.append(("env", k, j, "Deliver"))
     if mode == "outage":
         for k in nm:
             for j in range(nm[k]):
@@ -574,7 +581,7 @@ def plan_for(cfg, res_m, mode, capacity):
     return plan, cid_of, seg_list
 
 
-def compare_model(cfg, res_m, model_val, cid_of, seg_list):
+def compare_model(cfg, res_m, model_val, cid_of, seg_list, skip=None):
     """model_val: [(server index, [(mirror pos, [[id]...])])] per connection, in cid order"""
     name, servers, mirrors, pool_size = cfg[:4]
     bad = []
@@ -591,6 +598,8 @@ def compare_model(cfg, res_m, model_val, cid_of, seg_list):
             bad.append("server index %d: model attaches mirrors %s, configuration order gives %s" % (idx, [p for p, _ in chans], want_mirrors))
             continue
         for pos, ids in chans:
+            if pos == skip:
+                continue        # the stalled mirror: what (if anything) it logged is timing dependent; check_pair bounds it
             mb = mirrors[pos][0]
             md, morder = conn_frames(res_m, mb)
             got = []
@@ -650,6 +659,24 @@ def zombie_scenario():
               {"op": "sleep", "ms": 600}, {"op": "snapshot", "label": "primary connection gone"},
               {"op": "backend", "b": "m0", "mode": "normal"}, {"op": "sleep", "ms": 1200}, {"op": "snapshot", "label": "end"}]
     return cfg, {"backends": [{"name": b} for b in ALL_BACKENDS], "toml": make_toml(cfg, True), "hex": True, "timing": True, "steps": steps}
+
+
+def retarget_scenario():
+    """a live reload that changes ONLY a mirror's mirroring_target_index (0 -> 1): afterwards the mirror must receive the
+    requests of the NEW server and none of the old one (C14 owns the reload decision; this is its C20 side)"""
+    before = ("two/m0>0", [("p0", "primary"), ("r1", "replica")], [("m0", 0)], 1)
+    after = ("two/m0>1", [("p0", "primary"), ("r1", "replica")], [("m0", 1)], 1)
+    steps = [{"op": "connect", "c": "c1", "params": {"user": "u", "database": "db"}, "password": "pw"}]
+
+    def rt(c, sql, label):
+        return [{"op": "send", "c": c, "msgs": [Q(sql)]}, {"op": "recv", "c": c, "until": "Z", "timeout_ms": 3000, "label": label}]
+    steps += rt("c1", "SELECT 1 /*rt_A_primary*/", "a0") + rt("c1", "SET SERVER ROLE TO 'replica'", "a1") + rt("c1", "SELECT 2 /*rt_A_replica*/", "a2") + rt("c1", "SET SERVER ROLE TO 'primary'", "a3")
+    steps += [{"op": "sleep", "ms": 100}, {"op": "write_config", "toml": make_toml(after, True)}, {"op": "reload"}, {"op": "sleep", "ms": 150},
+              {"op": "connect", "c": "c3", "params": {"user": "u", "database": "db"}, "password": "pw"}]
+    for c in ("c1", "c3"):
+        steps += rt(c, "SELECT 3 /*rt_B_primary_%s*/" % c, "b0" + c) + rt(c, "SET SERVER ROLE TO 'replica'", "b1" + c) + rt(c, "SELECT 4 /*rt_B_replica_%s*/" % c, "b2" + c) + rt(c, "SET SERVER ROLE TO 'primary'", "b3" + c)
+    steps += [{"op": "sleep", "ms": 300}, {"op": "snapshot", "label": "end"}]
+    return {"backends": [{"name": b} for b in ALL_BACKENDS], "toml": make_toml(before, True), "hex": True, "timing": True, "steps": steps}
 
 
 def outage_program(rng, capacity, with_txn):
@@ -828,6 +855,36 @@ def check(run):
         sched = [(1, "_sleep", 80, 0), (1, "m0", "noread", 0), (len(program), "m0", "normal", 0)]
         cases.append({"kind": "backpressure", "cfg": cfg, "program": program, "sched": sched})
 
+    # every mapping with k >= 2 mirrors on one server: each single mirror stalled in turn, >= 30 requests; every other mirror of
+    # that server must still get EVERYTHING (its own channel never fills: it is healthy and fast) -- c20_mirrors_independent
+    nst = 0
+    for cfg in CONFIGS:
+        by_target = {}
+        for pos, (mb, t) in enumerate(cfg[2]):
+            by_target.setdefault(t, []).append(pos)
+        for t, poss in by_target.items():
+            if len(poss) < 2:
+                continue
+            for sp in poss:
+                for sm in ("hang_startup", "refuse", "noread"):
+                    if quick and cfg[3] == 2:
+                        continue
+                    program = []
+                    if t == 1:
+                        program.append(req("c1", [Q("SET SERVER ROLE TO 'replica'")], kind="role"))
+                    for k in range(30 + rng.randint(0, 6)):
+                        if k % 7 == 3:
+                            program.append(req("c1", [{"t": "P", "name": "", "sql": "SELECT %d /*st%d_%d*/" % (k, nst, k)}, {"t": "B", "portal": "", "name": ""}, {"t": "E", "portal": ""}, {"t": "S"}], until="Z", kind="ext"))
+                        else:
+                            program.append(req("c1", [Q("SELECT %d /*st%d_%d*/" % (k, nst, k))]))
+                    first = 1 if t == 1 else 0
+                    if sm == "noread":
+                        sched = [(first + 1, "_sleep", 80, 0), (first + 1, cfg[2][sp][0], "noread", 0)]
+                    else:
+                        sched = [(0, cfg[2][sp][0], sm, 0)]
+                    cases.append({"kind": "stall", "cfg": cfg, "program": program, "sched": sched, "stalled": sp, "stall_mode": sm})
+                    nst += 1
+
     # (3) large statements into a mirror that stops reading for 1.5 s and then reads again
     big = [(65536, 80), (1048576, 6)] if quick else [(65536, 80), (65536, 120), (262144, 24), (1048576, 6), (1048576, 10), (4194304, 3), (4194304, 4)]
     for i, (size, count) in enumerate(big):
@@ -841,6 +898,8 @@ def check(run):
             tail = 1500
         if cs["kind"] == "outage":
             tail = 900
+        if cs["kind"] == "stall":
+            tail = 250
         if cs["kind"] == "backpressure":
             tail = 1500
         cs["scn_m"] = build_scenario(cs["cfg"], cs["program"], cs["sched"], True, tail_ms=tail, extra_tail=extra, app=cs.get("app"))
@@ -862,7 +921,7 @@ def check(run):
 
     distinct = set()
     unconfirmed = []
-    stats = {"fault": 0, "healthy": 0, "outage": 0, "backpressure": 0, "bigstmt": 0, "bigstmt_mirror_vs_primary_frames": [], "backpressure_mirror_vs_primary_frames": [], "slow_in_both_runs": [], "mirror_frames": 0, "primary_frames": 0, "mirror_conns": 0, "overflow_runs": 0, "requests": 0,
+    stats = {"fault": 0, "healthy": 0, "outage": 0, "stall": 0, "backpressure": 0, "bigstmt": 0, "bigstmt_mirror_vs_primary_frames": [], "backpressure_mirror_vs_primary_frames": [], "slow_in_both_runs": [], "mirror_frames": 0, "primary_frames": 0, "mirror_conns": 0, "overflow_runs": 0, "requests": 0,
              "by_fault": {}, "by_cfg": {}, "req_kinds": {}, "max_latency_ms_with_mirrors": 0.0, "drops_observed": 0}
     samples = []
     for cs in cases:
@@ -938,9 +997,9 @@ def check(run):
     if proof_ok and not run.violations:
         exprs, metas = [], []
         for cs in cases:
-            if cs["kind"] not in ("healthy", "outage") or cs.get("failed") or failed(cs["res_m"]):
+            if cs["kind"] not in ("healthy", "outage", "stall") or cs.get("failed") or failed(cs["res_m"]):
                 continue
-            plan, cid_of, seg_list = plan_for(cs["cfg"], cs["res_m"], cs["kind"], capacity)
+            plan, cid_of, seg_list = plan_for(cs["cfg"], cs["res_m"], cs["kind"], capacity, stalled=cs.get("stalled"))
             exprs.append(model_expr(cs["cfg"], plan))
             metas.append((cs, cid_of, seg_list))
         # attachment function on every configuration, every index
@@ -953,19 +1012,21 @@ def check(run):
         for (cs, cid_of, seg_list), v in zip(metas, vals):
             run.cov["evaluations"] += 1
             mv = vlib.parse_coq(v)
-            dis = compare_model(cs["cfg"], cs["res_m"], mv, cid_of, seg_list)
+            dis = compare_model(cs["cfg"], cs["res_m"], mv, cid_of, seg_list, skip=cs.get("stalled"))
             if dis:
                 # timing-dependent deliveries are not a defect by themselves: confirm on a re-run before reporting
                 r2 = W.run_scenario(wire, cs["scn_m"], timeout=120)
                 if failed(r2):
                     run.broken.append("wire harness failed on a re-run: %s" % str(r2.get("harness_error") or r2.get("start_error"))[:200])
                     continue
-                plan2, cid2, seg2 = plan_for(cs["cfg"], r2, cs["kind"], capacity)
+                plan2, cid2, seg2 = plan_for(cs["cfg"], r2, cs["kind"], capacity, stalled=cs.get("stalled"))
                 v2 = vlib.coq_eval("c20r", PREAMBLE, [model_expr(cs["cfg"], plan2)])[0]
-                dis2 = compare_model(cs["cfg"], r2, vlib.parse_coq(v2), cid2, seg2)
+                dis2 = compare_model(cs["cfg"], r2, vlib.parse_coq(v2), cid2, seg2, skip=cs.get("stalled"))
                 run.cov["disagreements_checked"] += 1
                 if dis2:
-                    run.violation("tie-broken", "mirroring model and implementation disagree (%s schedule, config %s): %s" % (cs["kind"], cs["cfg"][0], dis2[0]),
+                    run.violation("counterexample" if cs["kind"] == "stall" else "tie-broken",
+                                  ("C20 fan-out: with mirror #%d of the server stalled (%s) a HEALTHY mirror of the same server did not get every request (c20_mirrors_independent); " % (cs["stalled"], cs["stall_mode"]) if cs["kind"] == "stall" else "") +
+                                  "mirroring model and implementation disagree (%s schedule, config %s): %s" % (cs["kind"], cs["cfg"][0], dis2[0]),
                                   {"correspondence": "coq/Mirror/Model.v runw vs wire run (what each mirror was handed)",
                                    "input": {"config": cs["cfg"], "program": cs["program"], "schedule": cs["sched"], "kind": cs["kind"]},
                                    "disagreement": dis2, "model": v2, "scenario_with_mirrors": cs["scn_m"]}, found_input=False)
@@ -1110,6 +1171,35 @@ def check(run):
             badz = check_pair(cfgz, [], [], rz, rz)
             for kind, text in [b for b in badz if b[0].startswith("mirror")][:1]:
                 run.violation("counterexample", "C20 %s: %s [zombie scenario]" % (kind, text), {"input": {"scenario": "zombie"}, "scenario_with_mirrors": scn_z})
+
+    # ---- a reload that only moves a mirror to another server of the shard
+    scn_rt = retarget_scenario()
+    r_rt = W.run_scenario(wire, scn_rt, timeout=60)
+    run.cov["evaluations"] += 1
+    distinct.add("retarget-by-reload")
+    if failed(r_rt):
+        run.broken.append("wire harness failed (retarget scenario): %s" % str(r_rt.get("harness_error") or r_rt.get("start_error"))[:200])
+    else:
+        def seen(res):
+            return [e["detail"].get("sql") or "" for e in res["events"] if e.get("who") == "m0" and e.get("ev") == "msg" and e["tag"] == "Q"]
+        def verdict(res):
+            sq = seen(res)
+            at = lambda t: any(t in x for x in sq)
+            probs = []
+            if not at("rt_A_primary") or at("rt_A_replica"):
+                probs.append("before the reload the mirror of server 0 saw %s" % [x[-24:] for x in sq if "rt_A" in x])
+            if any("rt_B_primary" in x for x in sq):
+                probs.append("after the reload (target index 0 -> 1) the mirror still receives requests of server 0")
+            if not (at("rt_B_replica_c1") and at("rt_B_replica_c3")):
+                probs.append("after the reload (target index 0 -> 1) the mirror does not receive the requests of server 1 (got %s)" % [x[-24:] for x in sq if "rt_B" in x])
+            return probs
+        pr = verdict(r_rt)
+        if pr:
+            r2 = W.run_scenario(wire, scn_rt, timeout=60)
+            pr = verdict(r2) if not failed(r2) else []
+        run.cov["retarget_by_reload"] = {"mirror_saw": [x[-26:] for x in seen(r_rt)], "reload": [e.get("result") for e in r_rt["events"] if e.get("ev") == "reload"]}
+        if pr:
+            run.violation("counterexample", "C20 retarget: %s" % "; ".join(pr), {"input": {"scenario": "reload changes only mirroring_target_index 0 -> 1"}, "scenario_with_mirrors": scn_rt})
 
     run.cov["distinct_nontrivial"] = len(distinct)
     run.cov["rule"] = ("pairs (same client program + same mirror fault schedule, run with and without the [mirrors] section): %d fault timings over %d mirror-to-server mappings "
